@@ -715,6 +715,230 @@ def part_d(ctx, exprs, meta):
 
 
 # ------------------------------------------------------------------------------------------
+# (e) initializers that are VALUE OBJECTS of related types, through every entry point
+
+def family(rng, kind, ops, keep):
+    """P (constraints = intersection of `ops`) and types related to it: [(label, type object, ops')] where the
+    intersection of ops' is the set the type's subtypeSpec denotes.  Related = derived with subtype()/clone(), or
+    built with unions / intersections / exclusions around P's own subtypeSpec object or its operands (which makes
+    them look like sub- or supertypes to isSuperTypeOf), or unrelated with wider / no constraints."""
+    cls = BASES[kind][0]
+    P = make_type(kind, ops)
+    ptree = ('and', ops)
+    extra = st.gen_tree(rng, kind, rng.randrange(1, 3))
+    pextra = st.to_pyasn1(extra)
+    fresh = lambda: [st.to_pyasn1(o) for o in ops]
+    fam = [('parent', P, ops)]
+    def add(label, make, ops_):
+        try:
+            T = make()
+        except error.PyAsn1Error:
+            return
+        fam.append((label, T, ops_))
+    add('union_mentions_parent_spec', lambda: cls(subtypeSpec=C.ConstraintsUnion(P.subtypeSpec, pextra)),
+        [('or', [ptree, extra])])
+    add('intersection_of_union_mentioning_parent',
+        lambda: cls(subtypeSpec=C.ConstraintsIntersection(C.ConstraintsUnion(P.subtypeSpec, pextra))),
+        [('or', [ptree, extra])])
+    add('union_of_parent_operands_and_more', lambda: cls(subtypeSpec=C.ConstraintsUnion(*(fresh() + [pextra]))),
+        [('or', ops + [extra])])
+    add('union_of_parent_operands', lambda: cls(subtypeSpec=C.ConstraintsUnion(*fresh())), [('or', ops)])
+    add('exclusion_of_parent_operands', lambda: cls(subtypeSpec=C.ConstraintsExclusion(*fresh())), [('excl', ops)])
+    add('intersection_of_exclusion', lambda: cls(subtypeSpec=C.ConstraintsIntersection(C.ConstraintsExclusion(*fresh()))),
+        [('excl', ops)])
+    add('intersection_of_union_of_operands', lambda: cls(subtypeSpec=C.ConstraintsIntersection(C.ConstraintsUnion(*fresh()))),
+        [('or', ops)])
+    add('exclusion_of_parent_spec', lambda: cls(subtypeSpec=C.ConstraintsExclusion(P.subtypeSpec)), [('excl', [ptree])])
+    add('derived_by_subtype', lambda: P.subtype(subtypeSpec=pextra), ops + [extra])
+    add('derived_by_subtype_explicit_tag',
+        lambda: P.subtype(subtypeSpec=pextra, explicitTag=tag.Tag(tag.tagClassContext, tag.tagFormatSimple, 3)), ops + [extra])
+    add('derived_then_widened', lambda: cls(subtypeSpec=C.ConstraintsUnion(P.subtypeSpec + pextra, st.to_pyasn1(extra))),
+        [('or', [('and', ops + [extra]), extra])])
+    add('clone_with_other_constraints', lambda: P.clone(subtypeSpec=C.ConstraintsIntersection(pextra)), [extra])
+    add('unconstrained', lambda: cls(), [])
+    add('unrelated_wider', lambda: cls(subtypeSpec=C.ConstraintsIntersection(st.to_pyasn1(('or', [ptree, extra])))),
+        [('or', [ptree, extra])])
+    add('same_constraints_built_again', lambda: make_type(kind, ops), ops)
+    keep.extend(T for _, T, _ in fam)
+    return fam, extra
+
+
+STRUCTURAL = {'parent', 'intersection_of_union_mentioning_parent', 'intersection_of_exclusion',
+              'intersection_of_union_of_operands', 'unrelated_wider', 'same_constraints_built_again',
+              'clone_with_other_constraints', 'unconstrained'}
+
+
+def part_e(ctx, exprs, meta):
+    rng = ctx.rng
+    registry, keep = {}, []
+
+    def tree_of(ops_):
+        return ('and', ops_) if ops_ else None
+
+    def expect(ops_, v):
+        """None = no exact prediction (outside the typed domain)"""
+        t = tree_of(ops_)
+        if t is None:
+            return True
+        if st.wf(t) and st.typed(t, None, v):
+            return st.member(t, None, v)
+        return None
+
+    def judge(res, exc, kind, t_ops, v, case, what, model):
+        """the object an entry point returned must satisfy its own type's constraints, else the call must have
+        raised ValueConstraintError; compared with set theory and with the model's constructor"""
+        want = expect(t_ops, v)
+        if exc is None:
+            ctx.stats['e.result.ok'] += 1
+            if not isinstance(res, base.SimpleAsn1Type) or not res.isValue:
+                ctx.prop_fail('%s returned something that is not a value object' % what, case)
+                return
+            got = payload_of(res, kind)
+            t = registry.get(id(res.subtypeSpec))
+            if t is not None and not st.member(t, None, got):
+                ctx.prop_fail('%s produced a value object whose own type\'s constraints reject its payload' % what,
+                              dict(case, result=got))
+            elif want is False:
+                ctx.prop_fail('%s accepted a payload the target type\'s constraints reject' % what, dict(case, result=got))
+            elif got != v:
+                ctx.prop_fail('%s changed the payload' % what, dict(case, result=got))
+            out = ('ok', got)
+        else:
+            out = exc_class(exc)
+            ctx.stats['e.result.' + (out if not out.startswith('crash') else 'crash')] += 1
+            if want is True:
+                ctx.prop_fail('%s refused (%s) a payload the target type admits' % (what, type(exc).__name__), case)
+            elif want is False and out != 'EConstraint':
+                ctx.prop_fail('%s raised %s instead of ValueConstraintError' % (what, type(exc).__name__), case)
+        if model is not None:
+            rc = res_coq(out)
+            if rc is None:
+                ctx.corr_fail('entry point raised an exception the model has no name for', dict(case, impl=out))
+            else:
+                exprs.append('outcome_eqb %s %s' % (model, rc))
+                meta.append(('model and implementation disagree on %s from a value object' % what, dict(case, impl=out), None))
+
+    for t in range(ctx.n(20, 160)):
+        kind = ['int', 'int', 'bytes', 'text', 'oid', 'bits'][t % 6]
+        for attempt in range(12):
+            ops = [st.gen_tree(rng, kind, rng.randrange(1, 3)) for _ in range(rng.choice([1, 1, 2]))]
+            probe = st.candidates(rng, ('and', ops), kind, 10)
+            if any(st.member(('and', ops), None, x) for x in probe) and not all(st.member(('and', ops), None, x) for x in probe):
+                break
+        fam, extra = family(rng, kind, ops, keep)
+        for label, T, ops_ in fam:
+            if ops_:
+                registry[id(T.subtypeSpec)] = ('and', ops_)
+        ctx.stats['e.families.' + kind] += 1
+        # the syntactic relation itself, for the members whose subtypeSpec is an intersection built by its
+        # constructor (what Proofs/ConstraintInitializer.v's witnesses are made of): implementation vs model
+        for (la, A, a_ops) in fam:
+            for (lb, B, b_ops) in fam:
+                if la in STRUCTURAL and lb in STRUCTURAL:
+                    got = bool(A.isSuperTypeOf(B))
+                    ctx.case(('e.super', kind, a_ops, b_ops), la != lb)
+                    ctx.stats['e.is_super.%s' % got] += 1
+                    exprs.append('Bool.eqb (spec_is_super (spec_of [%s]) (spec_of [%s])) %s' % (
+                        ';'.join(map(st.to_coq, a_ops)), ';'.join(map(st.to_coq, b_ops)), coqio.cbool(got)))
+                    meta.append(('model and implementation disagree on isSuperTypeOf between related types',
+                                 {'part': 'e', 'kind': kind, 'self': la, 'other': lb, 'self_ops': a_ops, 'other_ops': b_ops,
+                                  'impl': got}, None))
+        allt = ('or', [('and', ops), extra])
+        cands = st.candidates(rng, allt, kind, 12)
+        parent = fam[0]
+        pairs = []
+        for q in fam[1:]:
+            pairs += [(q, parent), (parent, q)]            # value of the relative into the parent and back
+        for _ in range(6):
+            a, b = rng.sample(fam, 2)
+            pairs.append((a, b))
+        extra2 = st.gen_tree(rng, kind, 1)
+        for (slabel, S, s_ops), (tlabel, T, t_ops) in pairs:
+            members = [x for x in cands if expect(s_ops, x) is True]
+            # prefer payloads the target rejects: these are the ones that must not get through
+            members.sort(key=lambda x: expect(t_ops, x) is not False)
+            for v in members[:3]:
+                try:
+                    sobj = S.clone(raw_of(v))
+                except Exception:
+                    ctx.stats['e.source_not_constructible'] += 1
+                    continue
+                desc = {'part': 'e', 'kind': kind, 'ops': ops, 'extra': extra, 'source': slabel, 'target': tlabel,
+                        'source_ops': s_ops, 'target_ops': t_ops, 'value': v}
+                ctx.stats['e.pair.%s->%s' % (slabel[:14], tlabel[:14])] += 1
+                ctx.stats['e.target_%s' % {True: 'admits', False: 'rejects', None: 'unpredicted'}[expect(t_ops, v)]] += 1
+                Tc = stype_coq(kind, t_ops)
+                model = '(op_clone %s %s)' % (Tc, st.sval_coq(v))
+                entries = [
+                    ('clone(obj)', lambda: T.clone(sobj), t_ops, model),
+                    ('subtype(obj)', lambda: T.subtype(sobj), t_ops, model),
+                    ('class(obj, **readOnly)', lambda: T.__class__(sobj, **T.readOnly), t_ops, model),
+                    ('clone(obj, subtypeSpec=same)', lambda: T.clone(sobj, subtypeSpec=T.subtypeSpec), t_ops, model),
+                    ('clone(obj, tagSet=same)', lambda: T.clone(sobj, tagSet=T.tagSet), t_ops, model),
+                    ('clone(value=obj)', lambda: T.clone(value=sobj), t_ops, model),
+                ]
+                if isinstance(T.subtypeSpec, C.ConstraintsIntersection):
+                    p2 = st.to_pyasn1(extra2)
+                    keep.append(p2)
+                    entries.append(('subtype(obj, subtypeSpec=more)', lambda: T.subtype(sobj, subtypeSpec=p2), t_ops + [extra2],
+                                    '(op_subtype %s NoTag (Some %s) %s)' % (Tc, st.to_coq(extra2), st.sval_coq(v))))
+                    entries.append(('subtype(obj, explicitTag)',
+                                    lambda: T.subtype(sobj, explicitTag=tag.Tag(tag.tagClassPrivate, tag.tagFormatSimple, 9)),
+                                    t_ops, model))
+                for what, f, r_ops, mdl in entries:
+                    res, exc = run_op(f)
+                    if exc is None and isinstance(res, base.Asn1Item):
+                        keep.append(res)
+                        if r_ops and id(res.subtypeSpec) not in registry:
+                            registry[id(res.subtypeSpec)] = ('and', r_ops)
+                    ctx.case(('e', what, kind, s_ops, r_ops, v), True)
+                    judge(res, exc, kind, r_ops, v, dict(desc, entry=what), what, mdl)
+                # component assignment: what ends up in the container is a value object; it has to satisfy the
+                # constraints of the type it says it is (whether the slot takes it is isSuperTypeOf's business)
+                named = namedtype.NamedTypes(namedtype.NamedType('f', T))
+                slots = [
+                    ('SequenceOf.setComponentByPosition', lambda: univ.SequenceOf(componentType=T).setComponentByPosition(0, sobj), 0),
+                    ('SequenceOf.append', lambda: _do(univ.SequenceOf(componentType=T), lambda c: c.append(sobj)), 0),
+                    ('SequenceOf.__setitem__', lambda: _do(univ.SequenceOf(componentType=T), lambda c: c.__setitem__(0, sobj)), 0),
+                    ('SequenceOf.extend', lambda: _do(univ.SequenceOf(componentType=T), lambda c: c.extend([sobj])), 0),
+                    ('SetOf.setComponentByPosition', lambda: univ.SetOf(componentType=T).setComponentByPosition(0, sobj), 0),
+                    ('Sequence.setComponentByName', lambda: univ.Sequence(componentType=named).setComponentByName('f', sobj), 'f'),
+                    ('Sequence.setComponentByPosition', lambda: univ.Sequence(componentType=named).setComponentByPosition(0, sobj), 'f'),
+                    ('Sequence.__setitem__', lambda: _do(univ.Sequence(componentType=named), lambda c: c.__setitem__('f', sobj)), 'f'),
+                    ('Sequence.setComponents', lambda: univ.Sequence(componentType=named).setComponents(f=sobj), 'f'),
+                    ('Set.setComponentByName', lambda: univ.Set(componentType=named).setComponentByName('f', sobj), 'f'),
+                    # the same slots fed with the bare payload: the declared type's constructor decides
+                    ('SequenceOf.append(bare)', lambda: _do(univ.SequenceOf(componentType=T), lambda c: c.append(raw_of(v))), 0),
+                    ('Sequence.__setitem__(bare)', lambda: _do(univ.Sequence(componentType=named), lambda c: c.__setitem__('f', raw_of(v))), 'f'),
+                ]
+                for what, f, key in slots:
+                    res, exc = run_op(f)
+                    ctx.case(('e.slot', what, kind, s_ops, t_ops, v), True)
+                    case = dict(desc, entry=what)
+                    if exc is not None:
+                        ctx.stats['e.slot.refused'] += 1
+                        if what.endswith('(bare)') and expect(t_ops, v) is True:
+                            ctx.prop_fail('%s refused a payload the declared type admits' % what, case)
+                        continue
+                    ctx.stats['e.slot.accepted'] += 1
+                    comp = res[key]
+                    keep.append(comp)
+                    got = payload_of(comp, kind)
+                    ctree = registry.get(id(comp.subtypeSpec))
+                    if ctree is not None and not st.member(ctree, None, got):
+                        ctx.prop_fail('%s stored a value object whose own type\'s constraints reject its payload' % what,
+                                      dict(case, result=got))
+                    if what.endswith('(bare)') and expect(t_ops, v) is False:
+                        ctx.prop_fail('%s accepted a bare payload the declared type rejects' % what, dict(case, result=got))
+    ctx.sample({'part': 'e', 'kept_objects': len(keep)})
+
+
+def _do(container, f):
+    f(container)
+    return container
+
+
+# ------------------------------------------------------------------------------------------
 
 def run(ctx):
     ctx.rule = ('(a) expression trees of depth 1..4 over all 12 public constraint classes, built per value kind '
@@ -722,13 +946,17 @@ def run(ctx):
                 'ContainedSubtype operands, each applied to candidates at every mentioned boundary -1/0/+1, sizes -1/0/+1, '
                 'alphabet members/non-members, every presence pattern; (b) subtype() chains of 1..4 steps with no / explicit / '
                 'implicit tags; (c) all dunders, clone, subtype, BER decode on boundary operands; (d) ber/cer/der encode of '
-                'SEQUENCE OF / SET OF / SEQUENCE / SET around every boundary. non-trivial = depth >= 2 tree, a pair of distinct '
+                'SEQUENCE OF / SET OF / SEQUENCE / SET around every boundary; (e) value objects of related types (unions / '
+                'intersections / exclusions around the parent\'s spec or operands, subtype()/clone() derivations, wider and '
+                'unconstrained types) as initializers of constructor, clone, subtype and of SEQUENCE [OF] / SET [OF] slots, '
+                'preferring payloads the target rejects. non-trivial = depth >= 2 tree, a pair of distinct '
                 'chain members, or any operation')
     exprs, meta = [], []
     part_a(ctx, exprs, meta)
     part_b(ctx, exprs, meta)
     part_c(ctx, exprs, meta)
     part_d(ctx, exprs, meta)
+    part_e(ctx, exprs, meta)
     ctx.stats['coq_evaluations'] = len(exprs)
     for i in core.coq_bools('c14', IMPORTS, exprs, shard=400):
         what, case, fid = meta[i]
